@@ -44,11 +44,13 @@ Record step (ro : option N) (R : N -> Prop) (s s' : st) : Prop := {
                  mem x (aget r (cbs s)) = true \/ next s <= x
 }.
 
-Definition stk (s s' : st) : Prop := meta s' = meta s /\ rctx s' = rctx s.
+Definition stk (s s' : st) : Prop := meta s' = meta s /\ rctx s' = rctx s /\ cdicts s' = cdicts s.
 Lemma stk_refl s : stk s s.
-Proof. split; reflexivity. Qed.
+Proof. repeat split; reflexivity. Qed.
 Lemma stk_trans a b c : stk a b -> stk b c -> stk a c.
-Proof. intros [] []. split; congruence. Qed.
+Proof. intros [? [? ?]] [? [? ?]]. repeat split; congruence. Qed.
+Lemma stk_same_rest s s' : same_rest s s' -> stk s s'.
+Proof. intros []. repeat split; assumption. Qed.
 
 Lemma step_refl ro R s : PI s -> below s -> step ro R s s.
 Proof.
